@@ -327,7 +327,7 @@ class Kernel:
 
 # seam calls inside which a handler that raises may be run (CPython's
 # EINTR-then-handler path); everywhere else only handlers that return normally
-RAISING_SEAMS = frozenset(("select", "read", "in.read", "out.write"))
+RAISING_SEAMS = frozenset(("select", "read", "in.read"))
 
 
 class Signals:
@@ -345,6 +345,7 @@ class Signals:
         self.in_handler = 0
         self.raising_ok = False     # True while inside a blocking seam call of main
         self.w.on_main_seam = self._on_main_seam
+        self.w.main_wake = self._main_wake
         self.is_main = lambda: self.w.current is self.w.main
         self.app_is_main = True     # False: the app runs as a non-main thread (C12)
 
@@ -390,6 +391,11 @@ class Signals:
         if h is _signal.default_int_handler:
             return False
         return getattr(h, "sim_raises", False) is False
+
+    def _main_wake(self, blocked_in):
+        if not self.pending or not self.app_is_main:
+            return False
+        return blocked_in in RAISING_SEAMS or self._returns_normally(self.pending[0])
 
     def _on_main_seam(self, name):
         if self.pending and self.app_is_main:
